@@ -25,6 +25,7 @@ EXPLANATION = (
     ' R2 is a path rule per loop iteration (a failing item stores None and the loop goes on) and forbids eager package-defined conversions (f-string / str() of a sensor object) inside the isolating handler.'
     ' len() applied to a label-table lookup requires every value of every table the dict expression may denote to be sized (R1 len-of-label); R2 accepts a path on which a test established that the id is already present.'
     ' (R1 index-loop) a range()-driven subscript of a constant sequence stays inside it for every register value the call sites can pass.'
+    ' R2 also judges every item-by-item decoding loop of ET / ES read_settings_data.'
 )
 
 # calls that cannot raise on the values decoders pass them
@@ -535,6 +536,19 @@ def r2(ctx: Ctx, rep: Report):
     ok, why = _isolating_loop(prog, rs, "read_setting", ("ValueError", "RequestFailedException"), res)
     rep.check(ok, "C11.R2", "et-read-settings-data", rs.loc() if rs else et.module.relpath, "ET.read_settings_data isolates each setting",
               bad="ET.read_settings_data: %s" % why)
+    # the bulk settings reads the property names (ET, ES): any further loop in them that decodes item by item isolates too
+    for famname in ("ET", "ES"):
+        fn = prog.cls(famname).methods.get("read_settings_data")
+        if fn is None:
+            raise AnalysisError("%s.read_settings_data not found" % famname)
+        for lp in [x for x in ast.walk(fn.node) if isinstance(x, (ast.For, ast.AsyncFor))]:
+            for cname in ("_read_setting", "read_setting", "_read_sensor", "read_value", "read"):
+                if famname == "ET" and cname == "read_setting":
+                    continue          # judged above
+                if any(isinstance(x, ast.Call) and isinstance(x.func, ast.Attribute) and x.func.attr == cname for x in ast.walk(lp)):
+                    ok2, why2 = _isolating_loop(prog, fn, cname, ("ValueError",), res)
+                    rep.check(ok2, "C11.R2", "%s-read-settings-data:%s" % (famname.lower(), cname), fn.loc(lp), "%s.read_settings_data isolates each setting it decodes through %s()" % (famname, cname),
+                              bad="%s.read_settings_data: %s: one setting whose registers cannot be decoded makes the whole bulk read fail" % (famname, why2))
     # who-may-call: sensor.read(...) only inside _map_response; every bulk decode goes through it
     sensor = prog.cls("Sensor")
     reads = set(prog.method_overrides(sensor, "read"))
